@@ -105,19 +105,24 @@ def spec_strategy(draw, tier):
         elif topo == "same-server":       # different clients, one server
             ep.update(sip=base["sip"], smac=base["smac"], v6=base["v6"])
             ep["cip"] = ("2001:db8:eeee::%x" % (i + 1)) if base["v6"] else "10.99.%d.%d" % (i, 1 + i)
-        proto = "udp" if k in ("quic",) else "tcp"
-        tup = (proto, ep["cip"], ep["cport"], ep["sip"], ep["sport"])
-        while tup in used or ep["cport"] in (443, 44330):
+        if k == "noise":
+            ep["sport"] = draw(st.sampled_from([80, 8080, 53, 443]))
+        # one flow per (protocol, address pair, port pair), in either orientation; noise may be TCP or UDP, so it claims both
+        protos = ("udp",) if k == "quic" else ("tcp",) if k == "tls" else ("tcp", "udp")
+
+        def taken():
+            return any((pr, ep["cip"], ep["cport"], ep["sip"], ep["sport"]) in used or (pr, ep["sip"], ep["sport"], ep["cip"], ep["cport"]) in used
+                       for pr in protos)
+        while taken() or ep["cport"] in (443, 44330):
             ep["cport"] = 1024 + (ep["cport"] - 1023) % 64000
-            tup = (proto, ep["cip"], ep["cport"], ep["sip"], ep["sport"])
-        used.add(tup)
+        for pr in protos:
+            used.add((pr, ep["cip"], ep["cport"], ep["sip"], ep["sport"]))
         if k == "tls":
             c = draw(strategies.tls_conn(max_records=6, max_len=400, ep=st.just(ep), bytes_mode_limit=0,
                                          delivery=strategies.tcp_delivery(modes=("rec", "cuts", "flight"), wrap=True, dups=True)))
         elif k == "quic":
             c = draw(strategies.quic_conn(max_steps=6, ep=st.just(ep)))
         else:
-            ep["sport"] = draw(st.sampled_from([80, 8080, 53, 443]))
             c = {"kind": "noise", "what": draw(st.sampled_from(["http", "tcp_other", "dns", "udp_rand", "arp"])), "seed": draw(st.integers(0, 1 << 20)),
                  "n": draw(st.integers(1, 4)), "ep": ep}
         c["seed"] = c.get("seed", 0) * 16 + i
